@@ -538,6 +538,61 @@ pub fn resolved_order(specs: &[FileSpec], paths: &[PathBuf], root: usize) -> Res
     }))
 }
 
+/// CLI route: the same random graphs as a project on disk; `nitrogql check` resolves the imports of every
+/// document through cli/src/check.rs (its own index of documents). Exit 0 iff every file resolves and no
+/// resolved document holds two fragments of one name; exit 1 otherwise; never a crash.
+fn cli_case(case: &mut Case, base: &std::path::Path) -> CaseResult {
+    use crate::cli::{run_cli, Project};
+    let (specs, paths) = random_specs(case);
+    let n = specs.len();
+    let proj = Project::new(base);
+    proj.write("graphql.config.yaml", "schema: \"schema.graphql\"\ndocuments: \"docs/**/*.graphql\"\n");
+    proj.write("schema.graphql", "type Query { a: Int }\n");
+    for i in 0..n {
+        proj.write(&format!("docs{}", paths[i].to_string_lossy()), &render_file(i, &specs[i], &paths));
+    }
+    let mut all_ok = true;
+    let mut collision = false;
+    for root in 0..n {
+        match ref_closure(&specs, root) {
+            Err(()) => all_ok = false,
+            Ok(set) => {
+                let mut names: Vec<String> = frag_names(root)[..specs[root].n_frags].to_vec();
+                names.extend(set.iter().filter(|(f, _)| *f != root).map(|(_, n)| n.clone()));
+                let mut seen = BTreeSet::new();
+                if names.iter().any(|x| !seen.insert(x.clone())) {
+                    collision = true;
+                }
+            }
+        }
+    }
+    let run = run_cli(&proj.dir, &["check", "--output-format", "json"]);
+    let detail = json!({"files": files_json(&specs, &paths), "status": run.status, "stdout": run.stdout.chars().take(1200).collect::<String>(), "stderr": run.stderr.chars().take(400).collect::<String>()});
+    proj.remove();
+    case.evals(1);
+    if run.crashed() {
+        return Err(Failure::new("cli-crashed", format!("check crashed: {}", run.stderr.lines().find(|l| l.contains("panicked")).unwrap_or("signal")), detail));
+    }
+    let expect = if all_ok && !collision { 0 } else { 1 };
+    if run.status != Some(expect) {
+        let sig = if expect == 0 { "cli-spurious-import-error" } else { "cli-missed-import-error" };
+        return Err(Failure::new(
+            sig,
+            format!("`nitrogql check` exits {:?}, expected {expect} (all imports resolvable: {all_ok}; equal fragment names meet in one document: {collision})", run.status),
+            detail,
+        ));
+    }
+    case.label(if expect == 0 { "accepted" } else if !all_ok { "import-error" } else { "duplicate-fragment-name" });
+    if specs.iter().any(|s| s.n_frags == 0 && !s.has_op) {
+        case.label("imports-only-file");
+    }
+    if n >= 3 {
+        case.nontrivial(&specs);
+    }
+    case.sample(|| detail.clone());
+    Ok(())
+}
+
 pub fn files_json(specs: &[FileSpec], paths: &[PathBuf]) -> serde_json::Value {
     json!((0..specs.len()).map(|i| json!({"path": paths[i], "text": render_file(i, &specs[i], paths)})).collect::<Vec<_>>())
 }
@@ -695,6 +750,12 @@ pub fn run(env: &Env) -> i32 {
     if !open_graph_defect {
         rep.campaign("random-graphs", env.cases(80_000, 800_000), (10, 300), random_case);
     }
+    rep.note("campaign cli-graphs (built CLI): the random graphs written as a project; `nitrogql check` must exit 0 iff every document's imports resolve and no resolved document holds two fragments of one name, 1 otherwise (import resolution through cli/src/check.rs' own document index)");
+    rep.shrink_iters = Some(200);
+    let base = work_dir("c13");
+    let b2 = base.clone();
+    rep.campaign("cli-graphs", env.cases(5_000, 60_000), (20, 400), move |case| cli_case(case, &b2));
+    let _ = std::fs::remove_dir_all(&base);
     rep.merge_extra_evidence("loader_abi", "loader route (vh-loader C13)");
     rep.finish()
 }
